@@ -51,6 +51,12 @@ def run(R):
     # counter: init const, +1 inside the timeout handler, exit test raising
     augs = [n for n in rt.cfg.nodes if n.kind == 'stmt' and isinstance(n.ast, ast.AugAssign) and isinstance(n.ast.target, ast.Name)]
     inst = f'{rt.qual} :: attempt counter'
+
+    def counted_by_iterator(cx_):
+        return any(n.kind == 'for' and isinstance(n.ast.iter, ast.Call) and ast.unparse(n.ast.iter.func).rsplit('.', 1)[-1] in ('count', 'range', 'enumerate')
+                   for n in cx_.cfg.nodes)
+    if not augs and counted_by_iterator(rt):
+        raise AnalysisError('retry: attempts are counted by an iterator (itertools.count / range), a form the counter rule does not read')
     if not augs:
         R.fail('C19.LOP.1', inst, rt.qual, 'def retry', 'time-outs are not counted: a lost segment is re-requested forever instead of failing after retry_times attempts',
                site(rt, rt.f.node))
@@ -101,6 +107,11 @@ def _retry_counter(R, P, rt, aug, exprs, inst):
     if bound != 'retry_times':
         probs.append((f'attempt limit is `{bound}`, not the retry_times argument', t.ast))
     op = type(t.ast.ops[0])
+    # `c < R: go on` is `c >= R: give up` read on the other edge
+    raise_lab = True
+    if op in (ast.Lt, ast.LtE):
+        op = {ast.Lt: ast.GtE, ast.LtE: ast.Gt}[op]
+        raise_lab = False
     after_inc = rt.cfg.dominates(aug, t.node)
     # number of attempts n at which the raising edge is taken:  counter value c = init + n (after inc) or init + n - 1 (before)
     #  c >= R -> n = R - init (+1 if before) ; c > R -> n = R - init + 1 (+1) ; c == R -> same as >=
@@ -112,11 +123,11 @@ def _retry_counter(R, P, rt, aug, exprs, inst):
         if attempts_minus_R != 0:
             probs.append((f'an Interest is attempted retry_times{attempts_minus_R:+d} times (test `{norm(t.ast)}`, counter from {init})', t.ast))
     # the raising edge re-raises the timeout; the other edge loops back to a new express
-    r_true = reach_from_succ(rt.cfg, t.node, True, follow_exc=False)
+    r_true = reach_from_succ(rt.cfg, t.node, raise_lab, follow_exc=False)
     raises = [n for n in rt.cfg.nodes if n.kind == 'raise' and n.id in r_true]
     if not raises or any(n.ast.exc is not None and P.exc_name(rt.f.mod, n.ast.exc) != 'ndn.types.InterestTimeout' for n in raises):
         probs.append(('exhausting the attempts does not re-raise the timeout', t.ast))
-    r_false = reach_from_succ(rt.cfg, t.node, False, follow_exc=False)
+    r_false = reach_from_succ(rt.cfg, t.node, not raise_lab, follow_exc=False)
     if not any(n.id in r_false for (n, c) in exprs):
         probs.append(('a timed-out Interest is not expressed again', t.ast))
     if rt.cfg.exit.id in r_false and not any(n.id in r_false for (n, c) in exprs):
@@ -137,11 +148,30 @@ def _rest(R, P, g, rt, exprs):
     inst = f'{rt.qual} :: Interest parameters'
     want = {'validator': 'validator', 'lifetime': 'timeout', 'must_be_fresh': 'must_be_fresh'}
     bad = {k: kw.get(k) for k, v in want.items() if kw.get(k) != v}
-    if bad or not (ec.args and ast.unparse(ec.args[0]) == 'name'):
+    rparams = [a_.arg for a_ in rt.f.node.args.args]
+    # the name requested: the generator's current `name`, or a parameter of the helper (then given at the call sites, checked with the segment counter)
+    if bad or not (ec.args and (ast.unparse(ec.args[0]) == 'name' or ast.unparse(ec.args[0]) in rparams)):
         R.fail('C19.LOP.1', inst, rt.qual, ec, f'Interest is not expressed with the caller\'s name/validator/lifetime/freshness ({bad})', site(rt, ec))
     else:
         R.ok('C19.LOP.1', inst, site(rt, ec))
 
+    # a local that holds the last component of the current name (`last = name[-1]`, `name` not re-bound in between) reads as `name[-1]`
+    class _Last(ast.NodeTransformer):
+        def __init__(self, node):
+            self.node = node
+
+        def visit_Name(self, x):
+            if isinstance(x.ctx, ast.Load):
+                ds = g.cfg.defs_reaching(self.node, x.id)
+                if len(ds) == 1 and isinstance(ds[0][1], ast.Subscript) and ast.unparse(ds[0][1]) == 'name[-1]':
+                    d = ds[0][0]
+                    if {i.id for (i, _) in g.cfg.defs_reaching(d, 'name')} == {i.id for (i, _) in g.cfg.defs_reaching(self.node, 'name')}:
+                        return ds[0][1]
+            return x
+
+    def lasttext(t):
+        import copy
+        return ast.unparse(_Last(t).visit(copy.deepcopy(t.ast)))
     # ------------------------------------------------------------------ LOP.2
     fetches = [n for n in g.cfg.nodes if any(isinstance(c.func, ast.Name) and c.func.id == 'retry' for c in n.calls())]
     yields = [n for n in g.cfg.nodes if any(isinstance(x, (ast.Yield, ast.YieldFrom)) for x in n.walk())]
@@ -150,15 +180,15 @@ def _rest(R, P, g, rt, exprs):
     Y = {n.id for n in yields}
     probs = []
     for t in g.cfg.nodes:
-        if t.kind == 'test' and 'to_number(' in ast.unparse(t.ast) and 'to_number(name[-1])' not in ast.unparse(t.ast):
+        if t.kind == 'test' and 'to_number(' in ast.unparse(t.ast) and 'to_number(name[-1])' not in lasttext(t):
             R.fail('C19.LOP.2', f'{SF} :: segment number of the last component', SF, t.ast, f'the segment number is read from `{norm(t.ast)}`, not from the last name component', site(g, t.ast))
     zts = [t for t in g.cfg.nodes if t.kind == 'test' and isinstance(t.ast, ast.Compare) and 'to_number' in ast.unparse(t.ast)
            and isinstance(t.ast.comparators[0], ast.Constant) and t.ast.comparators[0].value == 0 and isinstance(t.ast.ops[0], ast.Eq)]
     for f in fetches:
         # (a) from a fetch, without passing a yield, neither another fetch nor the normal exit is reachable
         #     (exception: a discovery answer that is not segment 0 is discarded and the fetch restarts from segment 0)
-        discovery = any(isinstance(c.func, ast.Name) and c.func.id == 'retry' and c.args and isinstance(c.args[0], ast.Constant)
-                        and c.args[0].value is True for c in f.calls())
+        discovery = any(isinstance(c.func, ast.Name) and c.func.id == 'retry' and any(isinstance(a_, ast.Constant) and a_.value is True for a_ in c.args)
+                        for c in f.calls())
         skip_ok = {(t.id, False) for t in zts} if discovery else set()
         r = reach_from_succ(g.cfg, f, removed_nodes=Y, removed_edges=skip_ok, follow_exc=False)
         if g.cfg.exit.id in r:
@@ -186,6 +216,9 @@ def _rest(R, P, g, rt, exprs):
     segaug = [n for n in g.cfg.nodes if n.kind == 'stmt' and isinstance(n.ast, ast.AugAssign) and isinstance(n.ast.target, ast.Name)]
     inst = f'{SF} :: segment number stepping'
     probs = []
+    if not segaug and any(n.kind == 'for' and isinstance(n.ast.iter, ast.Call) and ast.unparse(n.ast.iter.func).rsplit('.', 1)[-1] in ('count', 'range')
+                          for n in g.cfg.nodes):
+        raise AnalysisError('segment_fetcher: segment numbers come from an iterator (itertools.count / range), a form the stepping rule does not read')
     if len(segaug) != 1 or not (isinstance(segaug[0].ast.op, ast.Add) and isinstance(segaug[0].ast.value, ast.Constant) and segaug[0].ast.value.value == 1):
         probs.append(('segment number does not advance by exactly 1', segaug[0].ast if segaug else g.f.node))
     else:
@@ -200,6 +233,12 @@ def _rest(R, P, g, rt, exprs):
         sets = [n for n in g.cfg.nodes if n.kind == 'stmt' and isinstance(n.ast, ast.Assign)
                 and any(ast.unparse(t) in ('name[-1]', 'name') for t in n.ast.targets) and 'from_segment' in ast.unparse(n.ast.value)]
         okset = bool(sets)
+        # ... or handed to the fetch helper directly as the name to request
+        direct = [c.args[0] for f in loopfetch for c in f.calls() if isinstance(c.func, ast.Name) and c.func.id == 'retry' and c.args
+                  and 'from_segment' in ast.unparse(c.args[0])]
+        if not sets and direct:
+            okset = all(ast.unparse(a_) in (f'name[:-1] + [Component.from_segment({sv})]', f'[*name[:-1], Component.from_segment({sv})]',
+                                            f'list(name[:-1]) + [Component.from_segment({sv})]') for a_ in direct)
         for s_ in sets:
             v_ = ast.unparse(s_.ast.value)
             tg = ast.unparse(s_.ast.targets[0])
@@ -210,7 +249,7 @@ def _rest(R, P, g, rt, exprs):
                 okset = False
         if not okset:
             probs.append(('the segment component of the next Interest is not built from the segment counter', sets[0].ast if sets else g.f.node))
-        elif loopfetch and not all(g.cfg.dominates(sets[0], f) for f in loopfetch):
+        elif sets and loopfetch and not all(g.cfg.dominates(sets[0], f) for f in loopfetch):
             probs.append(('the next Interest is sent before its segment component is set', loopfetch[0].ast))
         # initial values
         inits = [(n, n.ast.value.value) for n in g.cfg.nodes if n.kind == 'stmt' and isinstance(n.ast, ast.Assign)
@@ -262,8 +301,9 @@ def _rest(R, P, g, rt, exprs):
     if len(fb) < 2:
         probs.append((f'{len(fb)} final-block tests; the segmented paths (first = segment 0, following) each need one', g.f.node))
     for t in fb:
-        okshape = isinstance(t.ast, ast.Compare) and isinstance(t.ast.ops[0], ast.Eq) and \
-            {ast.unparse(t.ast.left), ast.unparse(t.ast.comparators[0])} == {'meta.final_block_id', 'name[-1]'}
+        tl = ast.parse(lasttext(t), mode='eval').body
+        okshape = isinstance(tl, ast.Compare) and isinstance(tl.ops[0], ast.Eq) and \
+            {ast.unparse(tl.left), ast.unparse(tl.comparators[0])} == {'meta.final_block_id', 'name[-1]'}
         if not okshape:
             probs.append((f'final-block test is `{norm(t.ast)}`', t.ast))
             continue
@@ -280,7 +320,7 @@ def _rest(R, P, g, rt, exprs):
     # unsegmented path: type test, yield once, return
     ut = [t for t in g.cfg.nodes if t.kind == 'test' and 'TYPE_SEGMENT' in ast.unparse(t.ast)]
     for t in ut:
-        if 'get_type(name[-1])' not in ast.unparse(t.ast):
+        if 'get_type(name[-1])' not in lasttext(t):
             R.fail('C19.LOP.2', f'{SF} :: segment test on the last component', SF, t.ast, f'whether the answer is a segment is decided on `{norm(t.ast)}`, not on the last name component',
                    site(g, t.ast))
     inst = f'{SF} :: unsegmented object'
